@@ -62,6 +62,9 @@ T = {
  "C19": ("TLC-enumerated variant lattice of the documented YAML format with expected meaning (ParamFiles, Gen_Yaml) rendered and parsed + to_yaml round trips + malformed/fuzzed files",
          "Printer token classes, documented token classes and reader obligations are a TLA+ model (PrinterCovered); all 2160 syntactic variants are rendered and must parse to the expected geometry, offsets, signs and dof; the library's own output must read back; structurally broken and fuzzed files must yield Err, never a panic.",
          "Concrete numbers inside each variant are seeded random; offsets compared to the printed precision.", "4/C19"),
+ "C20": ("TLC-enumerated layout and syntax lattice of robot descriptions with symbolic origin vectors (Gen_Urdf, invariant WellFormed) rendered to XML and replayed into from_urdf; fault variants",
+         "The mapping from OPW parameters to joint origin components is the spec's; TLC enumerates every supported layout x limit syntax x joint order x nesting x naming x duplicates; the harness fills in values, extracts and compares parameters, signs and limits, checks the three views and that the resulting solver finds in-limit configurations (joints without limits are unconstrained); broken descriptions must return Err.",
+         "Name decorations restricted to the documented forms; quick tier replays a seeded sample of 2000 of the 12672 behaviours, thorough all.", "4/C20"),
 }
 
 REASON_TODO = "check not built yet in this round (planned, see DESIGN.md section 9); not claimed until it runs"
